@@ -4,6 +4,9 @@ V = os.path.dirname(os.path.dirname(os.path.abspath(__file__)))
 ALL = ["C%02d" % i for i in range(1, 21)]
 TECH = ("contract-based deductive verification: sidecar pre/post/frame/loop-invariant contracts on the real functions, VCs generated "
         "from /repo's source on every run, discharged by z3/cvc5; executable twin of the same contracts for replay and bounded stand-ins")
+TECH_BOUNDED = ("bounded stand-in only (no obligation of this property is discharged deductively): the executable twin runs the real code on an enumerated / "
+                "sampled population and compares it with independent oracles and with itself under rewritings; the contract machinery of this family is used for the "
+                "mechanisms the property rests on, which are verified under other properties (see level text)")
 CHECKS = json.load(open(os.path.join(V, "pyvc", "checks_table.json")))
 m = json.load(open(os.path.join(V, "MANIFEST.json")))
 claimed = sorted(CHECKS)
@@ -13,7 +16,7 @@ for pid in claimed:
     m["checks"].append({
         "property_id": pid, "quick_cmd": "./check %s quick" % pid, "thorough_cmd": "./check %s thorough" % pid,
         "evidence_file": "evidence/%s.json" % pid, "replay_cmd_template": "./check %s --replay {path}" % pid,
-        "engine": "pyvc", "technique": TECH,
+        "engine": "pyvc", "technique": TECH if c.get("category", "proof") != "exploration" else TECH_BOUNDED,
         "level_claimed": {"category": c.get("category", "proof"), "design_ref": "DESIGN.md section 5 %s" % pid, "text": c["text"]},
         "level_note": c["note"]})
 for e in m["engines"]:
